@@ -240,11 +240,18 @@ class CallMixin:
             raise Unsupported(f"missing arguments {missing} for {fi.qualname} at {where}")
         return bound
 
+    MEMO_DECORATORS = ("functools.lru_cache", "lru_cache", "functools.cache", "cache")
+
+    def is_memoised(self, fi: FuncInfo) -> bool:
+        return any(d.split("(")[0] in self.MEMO_DECORATORS for d in fi.decorators)
+
     def source_decorators(self, fi: FuncInfo):
         out = []
         for d in fi.decorators:
             if d in NON_SOURCE_DECORATORS or d.endswith(".setter") or d.startswith("wraps"):
                 continue
+            if d.split("(")[0] in self.MEMO_DECORATORS:
+                continue            # modelled in exec_function_body (a hit returns what an EARLIER state produced)
             r = self.prog.resolve_name(fi.module, d)
             if r and r[0] == "func":
                 out.append(r[1])
@@ -254,6 +261,33 @@ class CallMixin:
 
     def exec_function_body(self, st: State, fi: FuncInfo, bound: dict, raw=False) -> list[Out]:
         """Execute fi (with its source-level decorators applied, read from the real source)."""
+        if not raw and self.is_memoised(fi) and not getattr(self, "_in_memo", False):
+            # functools.lru_cache / cache: a call either runs the body now (miss) or returns, without any effect, the value
+            # an earlier call with equal arguments RETURNED - computed in an arbitrary earlier heap (hit).  Exceptions are
+            # not cached.  (Arguments are compared by ==/hash: the same symbolic values are used.)
+            self._in_memo = True
+            try:
+                outs = self.exec_function_body(st, fi, bound, raw)
+                stale = st.copy()
+                self._stale_runs = getattr(self, "_stale_runs", 0) + 1
+                self.stale_prefix = f"stale{self._stale_runs}$"
+                # every heap array the body can touch was declared by the run above (same code): all of them are replaced
+                known = dict(self.initial_heap)
+                known.update(stale.heap)
+                for key, t in list(known.items()):
+                    stale.heap[key] = self.decls.fresh("stale_" + "".join(ch if ch.isalnum() else "_" for ch in key), t.sort)
+                try:
+                    for o in self.exec_function_body(stale, fi, bound, raw):
+                        if o.kind != "ret":
+                            continue
+                        hit = st.copy()
+                        hit.pc = list(o.st.pc)
+                        outs.append(Out("ret", hit.note("memoised:hit"), o.val))
+                finally:
+                    self.stale_prefix = None
+                return outs
+            finally:
+                self._in_memo = False
         decos = [] if raw else self.source_decorators(fi)
         if decos:
             if len(decos) != 1:
@@ -474,6 +508,11 @@ class CallMixin:
                     continue
                 except RuntimeError:
                     pass            # the expression mentions a local that is unbound here: fall through
+            if gname in getattr(c, "frame_ghosts", ()):
+                # a universal ghost of the callee that stands for "an arbitrary older object": additionally instantiated
+                # with the object of the CALLER's frame obligation (so a callee clause "objects older than X are untouched"
+                # carries the caller's frame through a coarse havoc)
+                extra_instances.append((gname, self.coerce(st, VInt(self.frame_witness()), gkind)))
             if gname in st.ghost and not gname.startswith("$"):
                 bound[gname] = st.ghost[gname]
             else:
@@ -526,6 +565,10 @@ class CallMixin:
             se = se.note(f"{where}:raises {r.exc}")
             for cl in list(c.ensures_exc.get(r.exc, [])) + list(getattr(c, "ghost_ensures_exc", {}).get(r.exc, [])):
                 se = se.assume(self.spec_bool(SpecEnv(se, names, pre_st, dict(bound)), cl.expr))
+                for gname, gval in extra_instances:
+                    n2, b2 = dict(names), dict(bound)
+                    n2[gname] = b2[gname] = gval
+                    se = se.assume(self.spec_bool(SpecEnv(se, n2, pre_st, b2), cl.expr))
             ex = VExc(self.exc_name(r.exc), [], f"{c.qualname} at {where}")
             if r.exc in ("Exception", "BaseException"):
                 ex.any_sub = True
